@@ -125,6 +125,12 @@ def run(ctx):
     # the meta lock, or inside its warmer) while the writer commits k+1 and the second thread reloads
     vlib.mc_check(ctx, "ReloadProto", "ReloadProto.cfg", timeout=120, workers=2)
     vlib.mc_check(ctx, "ReloadProto", "ReloadProto_negF48.cfg", expect_violation="NeverMovesBack", timeout=120, workers=2)
+    # unbounded: IndInv (published = exposed <= commit; a thread that is not idle holds the reload lock and loaded a commit
+    # between exposed and the newest) is inductive for any number of commits (4 threads) - Apalache; without the lock it is not
+    ok_ind = vlib.apalache_inductive(ctx, "ReloadProtoInd", ["ReloadProto.tla", "ReloadProtoInd.tla"], "ConstInit", "IndInv")
+    if ok_ind is False:
+        ctx.violation("ReloadProto: IndInv is not inductive (Apalache)", [], "")
+    vlib.apalache_inductive(ctx, "ReloadProtoIndNeg", ["ReloadProto.tla", "ReloadProtoIndNeg.tla"], "ConstInit", "IndInv", expect_fail=True)
     sp = ctx.path("shared.ndjson")
     vlib.run_bin("reader_driver", ["shared", "--seed", ctx.seed + 3, "--runs", 9 if ctx.quick else 90, "--out", sp], timeout=900)
     sev = vlib.read_ndjson(sp)
